@@ -1,5 +1,5 @@
 /- Property C18: the property theorems (and nothing else). -/
-import Frugal.Props.Instances
+import Frugal.Props.Inst.F_facts_steadyStateAllocFree
 namespace Frugal.C18
 open Frugal
 theorem steady_state_alloc_free : Generated.facts.steadyStateAllocFree = true := Instances.facts_steadyStateAllocFree
